@@ -428,6 +428,27 @@ def second_waiters(ctx, rep, loops, only_owner=None, rule="R-WAKE-2"):
                         r = q.recv(e)
                         if isinstance(r, tuple) and r[0] == "attr" and r[2] == li.event_field:
                             out.append((li, fi, e, p))
+    # whoever else waits, only the worker itself may clear its event: a clear() anywhere else can erase a wake-up
+    # (a completion, a new job) that the worker has not seen yet, and the worker then sleeps on its fallback timer
+    for li in loops:
+        if only_owner and li.owner.name not in only_owner:
+            continue
+        nclear = 0
+        loop_fns = set(e.fn.key for p in li.paths for e in p.events if e.fn is not None)  # the loop and its helpers
+        for fi in sorted(prog.functions.values(), key=lambda f: f.key):
+            if fi.parent is not None or fi is li.target or fi.owner is None or fi.owner not in li.owner.mro():
+                continue
+            if fi.key in loop_fns:
+                continue
+            ps, it = ctx.paths(fi, li.owner, depth=0)
+            for p in ps:
+                for e in p.calls():
+                    r = q.recv(e)
+                    if q.call_name(e) == "clear" and e.fn is fi and isinstance(r, tuple) and r[0] == "attr" and r[2] == li.event_field and it.type_of(r, p) == "E:Event":
+                        nclear += 1
+                        rep.ob(rule, "%s: only the worker clears its event (%s)" % (li.owner.name, fi.qualname), False, "%s clears the event that %s waits on: a wake-up meant for the worker (a finished delegate, a new job) that arrives just before is erased, and the worker sleeps until its fallback timer although work is ready" % (fi.qualname, li.target.qualname), where_of(fi, e.node), trace_of(p, e.seq))
+        if not nclear:
+            rep.ob(rule, "%s: only the worker clears its event" % li.owner.name, True, "", where_of(li.target))
     seen = set()
     for li, fi, e, p in out:
         if fi.key in seen:
